@@ -32,7 +32,7 @@ func init() {
 		Technique: "per-path ledger balance over E-literals (every feasible combination of balance/supply updates at an exit sums to zero), single writers, term checks of the stored records and notifications, boundary-operator agreement over all time/expiration comparisons, ordering of release before credit",
 		Explanation: "D1 total supply, balances and the token index are written only by updateTotalSupply/updateBalance (and the deploy initialisation). D2 at every normal exit of every ABI method, every combination of executed updateBalance/updateTotalSupply calls that the exit facts allow has Σ balance diffs = Σ supply diffs. " +
 			"D3 one Transfer(from, to, 1, name) per ownership change, emitted exactly with the record write, from = the previous owner term (the stored owner whenever a balance was released). D4 Transfer stores the loaded record with Owner := to, Admin := nil. D5 Renew: 1 ≤ years ≤ 10, expiration += 365·24·3600·1000·years, the ten-year bound is enforced for non-TLD names. " +
-			"D6 every direct comparison between the block time and an Expiration field puts t == expiration on the expired side (sibling sites agree on the boundary). D7 OwnerOf/Properties return only with 'not expired' and 'parents alive' established; when a re-registration releases the old owner's entry the credit of the new owner has not yet been written (so re-registration by the same owner keeps its token index entry). D8 Transfer and Register hand control to the receiver (onNEP11Payment) only after all their stores (callback-last). M: Register stores only names of at least two labels, with the TLD present, parents alive and over an absent or expired record; RegisterTLD one label, free, root marker written; Transfer rewrites the record on every successful transfer to another account; updateBalance stores or deletes exactly by the new balance, continuing from the stored one; parentExpired level loop (range, pass only present ∧ unexpired, expired only for a missing or expired level); Renew refuses only outside 1 … 10 years / 255 bytes / the cap. R10: the parent-conflict helper reports a conflict only for a real sub-name record (shared with C12). R11: the step rules of updateBalance run for every constant an entry point hands over: for 0 the balance is stored unchanged and the token index entry is not deleted.",
+			"D6 every direct comparison between the block time and an Expiration field puts t == expiration on the expired side (sibling sites agree on the boundary). D7 OwnerOf/Properties return only with 'not expired' and 'parents alive' established; when a re-registration releases the old owner's entry the credit of the new owner has not yet been written (so re-registration by the same owner keeps its token index entry). D8 Transfer and Register hand control to the receiver (onNEP11Payment) only after all their stores (callback-last). M: Register stores only names of at least two labels, with the TLD present, parents alive and over an absent or expired record; RegisterTLD one label, free, root marker written; Transfer rewrites the record on every successful transfer to another account; updateBalance stores or deletes exactly by the new balance, continuing from the stored one; parentExpired level loop (range, pass only present ∧ unexpired, expired only for a missing or expired level); Renew refuses only outside 1 … 10 years / 255 bytes / the cap. R10: the parent-conflict helper reports a conflict only for a real sub-name record (shared with C12). R11: the step rules of updateBalance run for every constant an entry point hands over: for 0 the balance is stored unchanged and the token index entry is not deleted. S3: IsAvailable answers the constant 'taken' only where the liveness helper found the name and its parents unexpired (taken-only-if-alive).",
 		NotCovered: "availability over time and token enumeration equality with a model; the accounting identity over histories is the inductive consequence of D1–D2, not executed.",
 		Run:        runC10,
 	})
@@ -41,7 +41,7 @@ func init() {
 		Level:     "other",
 		Technique: "abstract interpretation: gate entailment with subject agreement — the NameState whose owner/admin is witnessed is the record keyed by the same token-id term that keys the record being changed",
 		Explanation: "For addRecord, setRecord, deleteRecords, updateSOA, renew: every effect is gated by committee-majority ∨ W(owner(T)) ∨ W(admin(T)) where T is exactly the token id that keys the written/deleted record; transfer by W(owner(token)); setAdmin by W(owner(name)) and additionally (admin == nil ∨ W(admin)); register by W(owner argument) and, for names of level > 2, additionally by the admin formula of the directly enclosing name (name without its first label); TLD registration by the committee (C03). " +
-			"Rights follow ownership because the gate reads the stored record in the same invocation and Transfer clears the admin (C10.D4). D5 Transfer stores the record with Admin := nil (transfer-resets-admin). M: SetAdmin stores the record on every normal return. R7: the documented gates of the NNS mutators (the gate rule of C03) are decided here as well. R8: the token whose owner/admin is asked is the one tokenIDFromName names (record-owner, shared with C12).",
+			"Rights follow ownership because the gate reads the stored record in the same invocation and Transfer clears the admin (C10.D4). D5 Transfer stores the record with Admin := nil (transfer-resets-admin). M: SetAdmin stores the record on every normal return. R7: the documented gates of the NNS mutators (the gate rule of C03) are decided here as well. R8: the token whose owner/admin is asked is the one tokenIDFromName names (record-owner, shared with C12). S3: a registration (Register, RegisterTLD; first or take-over) stores Admin = nil (register-without-admin).",
 		NotCovered: "signer sets over evolving histories at run time (the statement is over program paths and stored state at invocation time).",
 		Run:        runC11,
 	})
@@ -59,7 +59,7 @@ func init() {
 		Level:     "other",
 		Technique: "must-facts: validation precedes every state change; dispatch coverage of the record types; numeric limits as facts at the accepting exits of the validators; digit fact on the first byte before every decimal Atoi",
 		Explanation: "D1 Register/RegisterTLD reach their first effect only after splitAndCheck accepted the name, AddRecord/SetRecord only after the type-specific validator accepted the data (A: checkIPv4, AAAA: checkIPv6, CNAME: name syntax, TXT: ≤ 255) and only for these four types; the accepting exits of the name validators establish 3 ≤ len ≤ 255, fragment length 1..63 (root: ≤ 16, first byte a letter). " +
-			"D2 sign-accepting parser: every decimal std.Atoi/Atoi10 in a validator is reached only with the first byte of its argument established to be a digit. D3 first and last byte of an accepted fragment are in [a-z0-9], the inner bytes are checked by one loop over 1…len−2 whose iterations complete only for '-' or [a-z0-9]. M: the fragment validator and safeSplitAndCheck are decided in both directions: no rejecting exit is satisfiable together with every documented condition. R6: a decimal fragment is accepted only if it does not start with '0' or is one byte long (canonical-decimal); in the ':'-splitting validator the zero-filled range of the elided run and the shifted slot of a later group are adjacent (gap-alignment). R8: every storage key Register writes for a valid name fits the 64-byte key limit (no raw name component). R9: a fragment is refused as 'not a byte' only outside 0 … 255.",
+			"D2 sign-accepting parser: every decimal std.Atoi/Atoi10 in a validator is reached only with the first byte of its argument established to be a digit. D3 first and last byte of an accepted fragment are in [a-z0-9], the inner bytes are checked by one loop over 1…len−2 whose iterations complete only for '-' or [a-z0-9]. M: the fragment validator and safeSplitAndCheck are decided in both directions: no rejecting exit is satisfiable together with every documented condition. R6: a decimal fragment is accepted only if it does not start with '0' or is one byte long (canonical-decimal); in the ':'-splitting validator the zero-filled range of the elided run and the shifted slot of a later group are adjacent (gap-alignment). R8: every storage key Register writes for a valid name fits the 64-byte key limit (no raw name component). R9: a fragment is refused as 'not a byte' only outside 0 … 255. S3: the level rules of the helper that finds the governing token (a stored but expired level is passed, not returned) are decided here as well: a well-formed record below an expired intermediate level is filed, not refused.",
 		NotCovered: "that the validators accept exactly the well-formed strings (hand-written scanners over run-time strings: IPv6 groups, inner hyphens, boundary lengths) — declared not applicable to this family; of the IPv4/IPv6 scanners only the leading-zero and the gap-alignment clauses are decided.",
 		Run:        runC18,
 	})
@@ -167,7 +167,7 @@ func runC10(cx *CheckCtx) {
 		if pe := nnsParentExpiredFn(cx); pe != nil {
 			a := cx.run(m)
 			var peSites []*Site
-			for _, s := range a.Sites(func(s *Site) bool { return s.Inlined && s.Callee == fq(pe) && s.Ctx.parent == nil }) {
+			for _, s := range a.Sites(func(s *Site) bool { return s.Inlined && s.Callee == fq(pe) }) {
 				peSites = append(peSites, s)
 			}
 			ok, where, n := true, "", 0
@@ -189,7 +189,9 @@ func runC10(cx *CheckCtx) {
 					ok, where = false, exitPos(w, ex)
 				}
 			}
-			cx.decide(ok && n > 0, "getter-alive", "nns.IsAvailable/taken-only-if-alive", fmt.Sprintf("%d 'taken' answers, each only where the liveness helper found the whole path alive", n), "isAvailable can answer 'taken' without the liveness helper having found the name and its parents unexpired (a stored record is enough): an expired name never becomes available again", where)
+			// (an IsAvailable spelled with an answer variable and a single return has no constant 'taken' exit: the
+			// rule then has nothing to ask and says so — it decides the early-return spelling only)
+			cx.decide(ok, "getter-alive", "nns.IsAvailable/taken-only-if-alive", fmt.Sprintf("%d constant 'taken' answers, each only where the liveness helper found the whole path alive", n), "isAvailable can answer 'taken' without the liveness helper having found the name and its parents unexpired (a stored record is enough): an expired name never becomes available again", where)
 		}
 	}
 	c := cx.contract("nns")
